@@ -34,7 +34,8 @@ type frame struct {
 	caller           *frame
 	fn               *ssa.Function
 	block, prevBlock *ssa.BasicBlock
-	env              map[ssa.Value]Value
+	env              []Value
+	idx              map[ssa.Value]int
 	locals           []Value
 	defers           *deferred
 	result           Value
@@ -57,8 +58,10 @@ func (fr *frame) get(key ssa.Value) Value {
 	case *ssa.Global:
 		return fr.x.global(key)
 	}
-	if r, ok := fr.env[key]; ok {
-		return r
+	if i, ok := fr.idx[key]; ok {
+		if r := fr.env[i]; r != nil {
+			return r
+		}
 	}
 	abortf("get: no value for %T %v in %v", key, key.Name(), fr.fn)
 	return nil
@@ -238,18 +241,19 @@ func (x *Exec) callSSA(caller *frame, site ssa.Instruction, fn *ssa.Function, ar
 	th.stack = append(th.stack, fr)
 	defer func() { th.stack = th.stack[:len(th.stack)-1] }()
 
-	fr.env = make(map[ssa.Value]Value)
+	fr.idx = x.eng.valueIndex(fn)
+	fr.env = make([]Value, len(fr.idx))
 	fr.block = fn.Blocks[0]
 	fr.locals = make([]Value, len(fn.Locals))
 	for i, l := range fn.Locals {
 		fr.locals[i] = x.zero(deref(l.Type()))
-		fr.env[l] = &fr.locals[i]
+		fr.set(l, &fr.locals[i])
 	}
 	for i, p := range fn.Params {
-		fr.env[p] = args[i]
+		fr.set(p, args[i])
 	}
 	for i, fv := range fn.FreeVars {
-		fr.env[fv] = env[i]
+		fr.set(fv, env[i])
 	}
 	for fr.block != nil {
 		x.runFrame(fr)
@@ -319,7 +323,7 @@ func (x *Exec) executePhis(fr *frame) []ssa.Instruction {
 			tmp[i] = fr.get(phi.(*ssa.Phi).Edges[predIndex])
 		}
 		for i, phi := range phis {
-			fr.env[phi.(*ssa.Phi)] = tmp[i]
+			fr.set(phi.(*ssa.Phi), tmp[i])
 		}
 	}
 	return nonPhis
@@ -349,39 +353,39 @@ func (x *Exec) visitInstr(fr *frame, instr ssa.Instruction) continuation {
 	case *ssa.DebugRef:
 
 	case *ssa.UnOp:
-		fr.env[instr] = x.unop(fr, instr, fr.get(instr.X))
+		fr.set(instr, x.unop(fr, instr, fr.get(instr.X)))
 
 	case *ssa.BinOp:
-		fr.env[instr] = x.binop(fr, instr.Op, instr.X.Type(), fr.get(instr.X), fr.get(instr.Y))
+		fr.set(instr, x.binop(fr, instr.Op, instr.X.Type(), fr.get(instr.X), fr.get(instr.Y)))
 
 	case *ssa.Call:
 		fn, args := x.prepareCall(fr, &instr.Call)
 		if x.lenient > 0 {
-			fr.env[instr] = x.lenientCall(fr, instr, fn, args)
+			fr.set(instr, x.lenientCall(fr, instr, fn, args))
 		} else {
-			fr.env[instr] = x.call(fr, instr, fn, args)
+			fr.set(instr, x.call(fr, instr, fn, args))
 		}
 
 	case *ssa.ChangeInterface:
-		fr.env[instr] = fr.get(instr.X)
+		fr.set(instr, fr.get(instr.X))
 
 	case *ssa.ChangeType:
-		fr.env[instr] = fr.get(instr.X)
+		fr.set(instr, fr.get(instr.X))
 
 	case *ssa.Convert:
-		fr.env[instr] = x.conv(fr, instr.Type(), instr.X.Type(), fr.get(instr.X))
+		fr.set(instr, x.conv(fr, instr.Type(), instr.X.Type(), fr.get(instr.X)))
 
 	case *ssa.SliceToArrayPointer:
 		abortf("SliceToArrayPointer unsupported")
 
 	case *ssa.MakeInterface:
-		fr.env[instr] = Iface{t: instr.X.Type(), v: fr.get(instr.X)}
+		fr.set(instr, Iface{t: instr.X.Type(), v: fr.get(instr.X)})
 
 	case *ssa.Extract:
-		fr.env[instr] = fr.get(instr.Tuple).(Tuple)[instr.Index]
+		fr.set(instr, fr.get(instr.Tuple).(Tuple)[instr.Index])
 
 	case *ssa.Slice:
-		fr.env[instr] = x.slice(fr, instr, fr.get(instr.X), fr.get(instr.Low), fr.get(instr.High), fr.get(instr.Max))
+		fr.set(instr, x.slice(fr, instr, fr.get(instr.X), fr.get(instr.Low), fr.get(instr.High), fr.get(instr.Max)))
 
 	case *ssa.Return:
 		switch len(instr.Results) {
@@ -445,15 +449,15 @@ func (x *Exec) visitInstr(fr *frame, instr ssa.Instruction) continuation {
 		x.spawn(fr, instr, fn, args)
 
 	case *ssa.MakeChan:
-		fr.env[instr] = &Chan{cap: x.asInt(fr, fr.get(instr.Size), "chan size")}
+		fr.set(instr, &Chan{cap: x.asInt(fr, fr.get(instr.Size), "chan size")})
 
 	case *ssa.Alloc:
 		var addr *Value
 		if instr.Heap {
 			addr = new(Value)
-			fr.env[instr] = addr
+			fr.set(instr, addr)
 		} else {
-			addr = fr.env[instr].(*Value)
+			addr = fr.get(instr).(*Value)
 		}
 		*addr = x.zero(deref(instr.Type()))
 
@@ -472,41 +476,41 @@ func (x *Exec) visitInstr(fr *frame, instr ssa.Instruction) continuation {
 		for i := range s {
 			s[i] = x.zero(tElt)
 		}
-		fr.env[instr] = Slice{v: s[:n]}
+		fr.set(instr, Slice{v: s[:n]})
 
 	case *ssa.MakeMap:
 		mt := instr.Type().Underlying().(*types.Map)
-		fr.env[instr] = &Map{kt: mt.Key(), vt: mt.Elem()}
+		fr.set(instr, &Map{kt: mt.Key(), vt: mt.Elem()})
 
 	case *ssa.Range:
-		fr.env[instr] = x.rangeIter(fr, fr.get(instr.X), instr.X.Type())
+		fr.set(instr, x.rangeIter(fr, fr.get(instr.X), instr.X.Type()))
 
 	case *ssa.Next:
-		fr.env[instr] = fr.get(instr.Iter).(iter).next(fr)
+		fr.set(instr, fr.get(instr.Iter).(iter).next(fr))
 
 	case *ssa.FieldAddr:
 		if se, ok := fr.get(instr.X).(*symElemRef); ok {
 			np := append(append([]int(nil), se.path...), instr.Field)
-			fr.env[instr] = &symElemRef{elems: se.elems, idx: se.idx, path: np}
+			fr.set(instr, &symElemRef{elems: se.elems, idx: se.idx, path: np})
 			break
 		}
 		p := fr.get(instr.X).(*Value)
 		if p == nil {
 			x.runtimePanic(fr, "invalid memory address or nil pointer dereference")
 		}
-		fr.env[instr] = &(*p).(Struct)[instr.Field]
+		fr.set(instr, &(*p).(Struct)[instr.Field])
 
 	case *ssa.Field:
-		fr.env[instr] = fr.get(instr.X).(Struct)[instr.Field]
+		fr.set(instr, fr.get(instr.X).(Struct)[instr.Field])
 
 	case *ssa.IndexAddr:
-		fr.env[instr] = x.indexAddr(fr, instr)
+		fr.set(instr, x.indexAddr(fr, instr))
 
 	case *ssa.Index:
-		fr.env[instr] = x.index(fr, instr)
+		fr.set(instr, x.index(fr, instr))
 
 	case *ssa.Lookup:
-		fr.env[instr] = x.lookup(fr, instr, fr.get(instr.X), fr.get(instr.Index))
+		fr.set(instr, x.lookup(fr, instr, fr.get(instr.X), fr.get(instr.Index)))
 
 	case *ssa.MapUpdate:
 		m := fr.get(instr.Map).(*Map)
@@ -516,17 +520,17 @@ func (x *Exec) visitInstr(fr *frame, instr ssa.Instruction) continuation {
 		x.mapUpdate(fr, m, fr.get(instr.Key), fr.get(instr.Value))
 
 	case *ssa.TypeAssert:
-		fr.env[instr] = x.typeAssert(fr, instr, fr.get(instr.X).(Iface))
+		fr.set(instr, x.typeAssert(fr, instr, fr.get(instr.X).(Iface)))
 
 	case *ssa.MakeClosure:
 		var bindings []Value
 		for _, b := range instr.Bindings {
 			bindings = append(bindings, fr.get(b))
 		}
-		fr.env[instr] = &Closure{instr.Fn.(*ssa.Function), bindings}
+		fr.set(instr, &Closure{instr.Fn.(*ssa.Function), bindings})
 
 	case *ssa.Select:
-		fr.env[instr] = x.selectStmt(fr, instr)
+		fr.set(instr, x.selectStmt(fr, instr))
 
 	default:
 		abortf("unexpected instruction %T", instr)
@@ -920,4 +924,48 @@ func allowedInRefused(fn *ssa.Function) bool {
 		}
 	}
 	return false
+}
+
+func (fr *frame) set(k ssa.Value, v Value) {
+	if v == nil {
+		v = noValue{}
+	}
+	fr.env[fr.idx[k]] = v
+}
+
+// noValue stands for the result of calls without results.
+type noValue struct{}
+
+// valueIndex numbers the SSA values of a function (params, free vars, locals, value-instructions).
+func (e *Engine) valueIndex(fn *ssa.Function) map[ssa.Value]int {
+	e.idxMu.Lock()
+	defer e.idxMu.Unlock()
+	if m, ok := e.idxCache[fn]; ok {
+		return m
+	}
+	m := map[ssa.Value]int{}
+	add := func(v ssa.Value) { m[v] = len(m) }
+	for _, p := range fn.Params {
+		add(p)
+	}
+	for _, p := range fn.FreeVars {
+		add(p)
+	}
+	for _, l := range fn.Locals {
+		add(l)
+	}
+	for _, b := range fn.Blocks {
+		for _, in := range b.Instrs {
+			if v, ok := in.(ssa.Value); ok {
+				if _, dup := m[v]; !dup {
+					add(v)
+				}
+			}
+		}
+	}
+	if e.idxCache == nil {
+		e.idxCache = map[*ssa.Function]map[ssa.Value]int{}
+	}
+	e.idxCache[fn] = m
+	return m
 }
